@@ -460,6 +460,66 @@ def _check_fields(ctx, kp, u, f):
                   % (nm, v), construct='fields:%s' % nm, detail=str(v))
     ctx.assume('strptime leaves tm_sec in [0,60], tm_min in [0,59], tm_hour in [0,23], tm_mday in [1,31], tm_mon in [0,11]')
     ctx.minimum('C09-fields', 3)
+    _check_flags(ctx, u, f)
+
+
+def _check_flags(ctx, u, f):
+    """C09-flags (sibling agreement): the conversion sites of parse() that fill one and the same out-variable (&offset,
+    &percent_s, ...) agree on the bool flags they raise afterwards within the same iteration of the format scan; the flag
+    is what later makes the parsed value count (saw_offset selects UTC for the fields), so a site that fills the value
+    without raising the flag its siblings raise yields an instant computed in the wrong zone."""
+    g = ctx.cfg(f)
+    K = Keys(u)
+    loops_ = [x for x in walk(f) if x.get('kind') in ('WhileStmt', 'ForStmt', 'DoStmt')]
+    # the format scan: the loop with the largest body
+    outer = max(loops_, key=lambda l: sum(1 for _ in walk(l))) if loops_ else None
+    if outer is None:
+        ctx.unknown('C09-flags', 'flags raised by sibling conversion sites', f, 'the format scan loop of parse() was not found', construct='flags')
+        return
+    heads = set(n.id for n in g.live if n.kind == 'loop' and n.ast is outer)
+    bool_locals = set(x['id'] for x in walk(f) if x.get('kind') == 'VarDecl' and (dtype(x) or qtype(x)) == 'bool')
+    groups = {}
+    for x in walk(f):
+        if x.get('kind') != 'CallExpr' or not callee(x) or callee(x)[0] != 'fn' or not any(a is outer for a in ancestors(x)):
+            continue
+        for a in call_args(x):
+            pa = peel(a)
+            if pa.get('kind') == 'UnaryOperator' and pa.get('opcode') == '&' and peel(kids(pa)[0]).get('kind') == 'DeclRefExpr':
+                vid = (peel(kids(pa)[0]).get('referencedDecl') or {}).get('id')
+                d = u.by_id.get(vid)
+                if d is None or d.get('kind') != 'VarDecl' or any(an is outer for an in ancestors(d)):
+                    continue        # a scratch local of the iteration
+                starts = g.nodes_for(x)
+                seen = set()
+                stack = [m for s_ in starts for (m, _) in s_.succs]
+                flags = set()
+                while stack:
+                    n = stack.pop()
+                    if n.id in seen or n.id in heads:
+                        continue
+                    seen.add(n.id)
+                    if n.ast is not None and n.kind == 'stmt':
+                        for y in walk(n.ast):
+                            if y.get('kind') == 'BinaryOperator' and y.get('opcode') == '=' and \
+                                    (peel(kids(y)[0]).get('referencedDecl') or {}).get('id') in bool_locals and \
+                                    peel(kids(y)[1]).get('kind') == 'CXXBoolLiteralExpr' and peel(kids(y)[1]).get('value'):
+                                flags.add(K.key(kids(y)[0]))
+                    stack.extend(m for (m, _) in n.succs)
+                groups.setdefault((K.key(kids(pa)[0]), (callee(x)[1].get('name') or '')), []).append((x, flags))
+    n = 0
+    for (vk, fn_), sites in sorted(groups.items()):
+        if len(sites) < 2:
+            continue
+        allf = set().union(*[fl for (_, fl) in sites])
+        for (x, fl) in sites:
+            n += 1
+            missing = sorted(allf - fl)
+            ctx.check(not missing, 'C09-flags', '%s into %s at %s raises the same flags as its siblings' % (fn_, vk.split('#')[0], pos(x)), x,
+                      'this site fills %s through %s like %d other site(s) of parse() but does not raise %s afterwards as they do: the '
+                      'parsed value is stored yet treated as absent (for the UTC offset: the fields are then read in the caller\'s zone '
+                      'and shifted by the offset as well)' % (vk.split('#')[0], fn_, len(sites) - 1, ', '.join(m.split('#')[0] for m in missing)),
+                      construct='flags:%s:%s' % (vk.split('#')[0], fn_), detail=','.join(sorted(f_.split('#')[0] for f_ in fl)))
+    ctx.minimum('C09-flags', 2)
 
 
 def _guards_lead_to_false(ctx, ff, guards):
